@@ -204,6 +204,11 @@ func TestC48(t *testing.T) {
 				rec.Fail(rt, "redirect-contacted-backend:"+pname, wit, "Redirect verdict at %s but a backend was contacted", pname)
 				return
 			}
+			// "exactly that response": nothing of a backend response may be mixed into the redirect
+			if strings.Contains(string(respBytes), "ok b0") || m.Has("X-Backend") {
+				rec.Fail(rt, "redirect-mixed-with-backend-response:"+pname, wit, "Redirect verdict at %s: the client's response carries parts of the backend's response: %q", pname, clipS(respBytes))
+				return
+			}
 		case verdict == bfe_module.BfeHandlerResponse:
 			if perr != nil || m == nil || m.Status != s.RespStatus || string(m.Body) != s.RespBody || len(m.Get("X-Mod")) != 1 || m.Get("X-Mod")[0] != fmt.Sprint(n) {
 				rec.Fail(rt, "response-not-sent:"+pname, wit, "Response verdict at %s (status %d body %q): client got err=%v msg=%+v", pname, s.RespStatus, s.RespBody, perr, m)
